@@ -248,6 +248,34 @@ func (g *FuncGen) run() {
 		g.vals[p] = v
 		g.params[p.Name()] = v
 	}
+	// option frozen p,q: the struct a pointer parameter points to (including nested struct-valued fields) is
+	// not modified by calls whose effect is unknown - an assumption, listed in the evidence
+	if g.contract != nil {
+		for _, n := range strings.Fields(strings.ReplaceAll(g.contract.Options["frozen"], ",", " ")) {
+			v, ok := g.params[n]
+			if !ok {
+				g.unsup("option frozen: no parameter %s (stale-contract?)", n)
+			}
+			g.c.note("assumed: the object parameter " + n + " points to is not modified by uncontracted callees (option frozen)")
+			g.localRefs = append(g.localRefs, v.T)
+			var nested func(ref string, t types.Type, depth int)
+			nested = func(ref string, t types.Type, depth int) {
+				st, name, ok := g.c.structOf(t)
+				if !ok || depth > 3 {
+					return
+				}
+				for i := 0; i < st.NumFields(); i++ {
+					f := st.Field(i)
+					if isStructType(f.Type()) {
+						sub := g.c.subRef(name, f, ref)
+						g.localRefs = append(g.localRefs, sub)
+						nested(sub, f.Type(), depth+1)
+					}
+				}
+			}
+			nested(v.T, derefType(v.GT), 0)
+		}
+	}
 	var fvTerms []string
 	for _, fv := range fn.FreeVars {
 		v := g.declParam("fv_"+fv.Name(), fv.Type())
